@@ -228,6 +228,10 @@ def stepRec (c : Rec) (r : R) : M R := do
     | "bc" => pure r
     | x => throw s!"unknown caller record {x}"
 
+def errPos (m : String) : Nat :=
+  if m.startsWith "@" then (((m.drop 1).toString.splitOn " ").head!).toNat?.getD 0 else 0
+
+/-- first alternative that replays to the end; otherwise the failure that got furthest -/
 def firstOk {α} : List (Unit → M α) → M α
   | [] => throw "no alternative"
   | [f] => f ()
@@ -235,7 +239,7 @@ def firstOk {α} : List (Unit → M α) → M α
     let b ← get
     if b = 0 then throw e
     set (b - 1)
-    tryCatch (firstOk fs) fun _ => throw e
+    tryCatch (firstOk fs) fun e2 => throw (if errPos e2 > errPos e then e2 else e)
 
 /-- the unlocked broadcast after a record: if a worker sits between `bw` and the enqueue, try
     "missed" first, then "reached" -/
